@@ -61,6 +61,8 @@ type Script struct {
 	Events   []Event // remaining script
 	pos      int
 	WriteErr bool
+	// FlushErr: Flush (ScriptPortFlusher) fails
+	FlushErr bool
 	OnCancel func()
 	// IdleErr: what an idle read (script exhausted) returns besides sleeping: "timeout" (net), "empty" (serial)
 	IdleKind string
@@ -300,6 +302,13 @@ type ScriptPortFlusher struct{ ScriptPort }
 func (c *ScriptPortFlusher) Flush() error {
 	c.S.mu.Lock()
 	c.S.Flushes++
+	fail := c.S.FlushErr
 	c.S.mu.Unlock()
+	if fail {
+		return ErrFlush
+	}
 	return nil
 }
+
+// ErrFlush is the injected Flush failure (Script.FlushErr).
+var ErrFlush = errors.New("xport: injected flush error")
